@@ -80,7 +80,9 @@ Record PInv (s : state) (hi : N) : Prop := {
   p_nozero : ~ In 0 (snapfiles s);
   p_nodup : NoDup (snapfiles s);
   p_files_le : forall f, In f (snapfiles s) -> f <= hi;
-  p_ckpts : forall i l, lookup i (ckpts s) = Some l -> l = range 0 i
+  p_ckpts : forall i l, lookup i (ckpts s) = Some l -> l = range 0 i;
+  (* the WAL holds no record of an incoming snapshot (runs of a replica that never gets one: [local_only]) *)
+  p_local : local_recs (all_recs (segs s))
 }.
 
 Definition rlast (s : state) (r : ready) : N := if 0 <? r_n r then r_last r else rs_last s.
@@ -93,7 +95,7 @@ Definition pubcl (s : state) (r : ready) (p : bool) (lc : N) : Prop :=
 Definition rd_inv (s : state) (hi : N) : Prop :=
   let lc := last_commit (all_recs (segs s)) in
   let facts r := (0 < r_n r -> r_first r = rs_last s + 1 /\ r_last r + 1 = r_first r + r_n r /\ r_last r <= proposed s)
-                 /\ (0 < r_cn r -> r_clast r <= rlast s r) in
+                 /\ (0 < r_cn r -> r_clast r <= rlast s r) /\ r_snap r = 0 in
   let unsaved r := hi = rs_last s
                    /\ (0 < r_n r -> wstate s = true \/ r_hs r = true)
                    /\ (r_hs r = true -> lc <= r_commit r /\ r_commit r <= rlast s r)
@@ -107,6 +109,7 @@ Definition rd_inv (s : state) (hi : N) : Prop :=
   | RdSaving r p true => facts r /\ saved r /\ wstate s = true /\ pubcl s r p lc
   | RdCutting r p idx => facts r /\ saved r /\ idx = hi + 1 /\ unflushed s = 0%nat /\ wstate s = true /\ pubcl s r p lc
   | RdAppended r => hi = rs_last s /\ published s <= lc
+  | RdSnapSaving _ _ | RdSnapSaved _ | RdSnapApply _ _ => False
   end.
 
 Definition sn_before_marker (p : sn_pc) : bool :=
@@ -121,7 +124,7 @@ Record VInv (c : config) (s : state) (hi : N) : Prop := {
   v_wstate : (wstate s = true -> wcommit s = last_commit (all_recs (segs s)))
              /\ hcommit s <= last_commit (all_recs (segs s));
   v_done : rd_done s <= last_commit (all_recs (segs s)) /\ rd_done s <= hi /\ rd_done s <= published s;
-  v_queue : Forall (fun b => b_n b = 0 \/ b_last b <= published s) (queue s);
+  v_queue : Forall (fun b => (b_n b = 0 \/ b_last b <= published s) /\ b_snap b = 0) (queue s);
   v_applied : applied s <= published s;
   v_app : match app s with
           | ApIdle | ApDone | ApTrigger | ApTriggerDone => applied s <= rd_done s
@@ -129,6 +132,7 @@ Record VInv (c : config) (s : state) (hi : N) : Prop := {
           | ApTriggered i => i = applied s /\ applied s <= rd_done s /\ snapi s < applied s
           | ApApplying b => applied s <= rd_done s /\ (b_n b = 0 \/ b_last b <= published s)
           | ApApplied b => (b_n b = 0 -> applied s <= rd_done s) /\ applied s <= N.max (rd_done s) (b_last b)
+          | ApSnapPrepare _ | ApSnapPrepared _ | ApSnapRestoring _ => False
           end;
   v_engine : forall l, engine s = Some l -> l = range 0 (applied s);
   v_snapi : newest (segs s) <= snapi s /\ snapi s <= applied s;
@@ -210,6 +214,16 @@ Ltac not_running HV :=
   first [ congruence
         | match goal with Hs : sns _ = [], E0 : sn_lookup _ (sns _) = Some _ |- _ => rewrite Hs in E0; discriminate end ].
 
+(* the program counters of an incoming snapshot are not reached by a replica that never gets one *)
+Ltac rd_unreachable HV E :=
+  exfalso; unfold running in HV;
+  let R := fresh "R" in destruct (rc _) eqn:R; try (not_running HV);
+  destruct HV; match goal with V : rd_inv _ _ |- _ => unfold rd_inv in V; rewrite E in V; try exact V; tauto end.
+Ltac ap_unreachable HV E :=
+  exfalso; unfold running in HV;
+  let R := fresh "R" in destruct (rc _) eqn:R; try (not_running HV);
+  destruct HV; match goal with V : match app _ with _ => _ end |- _ => rewrite E in V; try exact V; tauto end.
+
 Ltac norm_guards :=
   repeat match goal with
          | G : negb _ = false |- _ => apply negb_false_iff in G
@@ -236,7 +250,7 @@ Lemma newest_app_tail_nomark : forall ss rs, ss <> [] -> markers rs = [] -> newe
 Proof. intros. unfold newest. rewrite app_tail_recs by auto. rewrite markers_app, H0, app_nil_r. reflexivity. Qed.
 
 Lemma pinv_segs_nonempty : forall s hi, PInv s hi -> segs s <> [].
-Proof. intros s hi [C _ _ _ _ _ _ _ _ _ _ _ _]. destruct (segs s); [destruct C | congruence]. Qed.
+Proof. intros s hi [C _ _ _ _ _ _ _ _ _ _ _ _ _]. destruct (segs s); [destruct C | congruence]. Qed.
 
 Lemma hd_first_app_tail : forall ss rs, hd_first (app_tail ss rs) = hd_first ss.
 Proof. intros. unfold hd_first. apply hd_app_tail_first. Qed.
@@ -264,7 +278,7 @@ Proof.
   set (rs := map REnt l ++ (if hs then [RState c] else [])) in *.
   assert (Hm : markers rs = []) by apply markers_ents_state.
   assert (He : entries rs = l) by apply entries_ents_state.
-  destruct P as [C Ha Hp Ht Hh Hcm Hni Hf Hfile Hz Hnd Hfl Hck].
+  destruct P as [C Ha Hp Ht Hh Hcm Hni Hf Hfile Hz Hnd Hfl Hck Hloc].
   destruct Ht as [pre [sl [body [tl [Ess [Esl [Etl [Hst Hhead]]]]]]]].
   constructor; rewrite ?Es, ?Esf, ?Eck, ?Eac, ?Epr; auto.
   - rewrite lo_of_app_tail. eapply seg_chain_app_tail; eauto.
@@ -317,6 +331,7 @@ Proof.
   - rewrite newest_app_tail_nomark by auto. rewrite hd_first_app_tail. exact Hf.
   - rewrite newest_app_tail_nomark by auto. exact Hfile.
   - intros f Hin. specialize (Hfl f Hin). lia.
+  - apply local_app_tail; auto. apply local_ents_state.
 Qed.
 
 (* the WAL marker of the snapshot at i: appended and flushed *)
@@ -336,7 +351,7 @@ Proof.
   intros s s' hi i P Es Eu Esf Eck Eac Epr Li Lc Hnew.
   pose proof (pinv_segs_nonempty _ _ P) as Hne.
   pose proof (pinv_lc0 _ _ P) as Hlc0.
-  destruct P as [C Ha Hp Ht Hh Hcm Hni Hf Hfile Hz Hnd Hfl Hck].
+  destruct P as [C Ha Hp Ht Hh Hcm Hni Hf Hfile Hz Hnd Hfl Hck Hloc].
   destruct Ht as [pre [sl [body [tl [Ess [Esl [Etl [Hst Hhead]]]]]]]].
   constructor; rewrite ?Es, ?Esf, ?Eck, ?Eac, ?Epr, ?Eu; auto.
   - rewrite lo_of_app_tail. eapply seg_chain_app_tail; eauto.
@@ -371,6 +386,7 @@ Proof.
     destruct (N.max_spec (newest (segs s)) i) as [[Hlt ->]|[Hge ->]].
     + apply Hnew. exact Hlt.
     + apply Hfile. lia.
+  - apply local_app_tail; auto. reflexivity.
 Qed.
 
 (* a cut: new tail segment named hi+1 beginning with the current hard state *)
@@ -384,7 +400,7 @@ Proof.
   intros s s' hi c P U0 Es Eu Esf Eck Eac Epr Ec.
   pose proof (pinv_segs_nonempty _ _ P) as Hne.
   pose proof (pinv_lc0 _ _ P) as Hlc0.
-  destruct P as [C Ha Hp Ht Hh Hcm Hni Hf Hfile Hz Hnd Hfl Hck].
+  destruct P as [C Ha Hp Ht Hh Hcm Hni Hf Hfile Hz Hnd Hfl Hck Hloc].
   assert (Hnw : newest (segs s ++ [mkSeg (hi + 1) [RState c]]) = newest (segs s)).
   { unfold newest. rewrite all_recs_snoc, markers_app. simpl. rewrite app_nil_r. reflexivity. }
   constructor; rewrite ?Es, ?Esf, ?Eck, ?Eac, ?Epr, ?Eu, ?Hnw; auto.
@@ -403,6 +419,7 @@ Proof.
     rewrite all_recs_snoc. simpl. rewrite last_commit_snoc_state. lia.
   - rewrite all_recs_snoc, markers_app. simpl. rewrite app_nil_r. exact Hni.
   - unfold hd_first in *. destruct (segs s); [congruence|]. simpl. exact Hf.
+  - apply local_snoc_seg; auto. reflexivity.
 Qed.
 
 (* the purge of the oldest WAL segment *)
@@ -419,7 +436,7 @@ Lemma pinv_purge_wal : forall s s' hi x y t,
   PInv s' hi /\ newest (segs s') = newest (segs s).
 Proof.
   intros s s' hi x y t P Ess Es Eu Esf Eck Eac Epr Hy.
-  destruct P as [C Ha Hp Ht Hh Hcm Hni Hf Hfile Hz Hnd Hfl Hck].
+  destruct P as [C Ha Hp Ht Hh Hcm Hni Hf Hfile Hz Hnd Hfl Hck Hloc].
   rewrite Ess in *.
   pose proof C as C0. destruct C as [mid [Ex [Lx [Mx [Fy Cy]]]]].
   assert (Hin : In (newest (x :: y :: t)) (markers (all_recs (y :: t)))).
@@ -455,6 +472,7 @@ Proof.
       change ((p1 :: pre'') ++ [sl]) with (p1 :: (pre'' ++ [sl])).
       destruct (pre'' ++ [sl]) eqn:Q; [destruct pre''; discriminate|].
       rewrite drop_tail_cons2, all_recs_cons, E1. reflexivity.
+  - apply (local_tl (x :: y :: t)). exact Hloc.
 Qed.
 
 (* changes of the snap directory and of the checkpoint directory only *)
@@ -490,7 +508,7 @@ Lemma pinv_crash : forall s s' hi j,
   PInv s' hi /\ newest (segs s') = newest (segs s).
 Proof.
   intros s s' hi j P Hj Es Eu Esf Eck Eac Epr.
-  destruct P as [C Ha Hp Ht Hh Hcm Hni Hf Hfile Hz Hnd Hfl Hck].
+  destruct P as [C Ha Hp Ht Hh Hcm Hni Hf Hfile Hz Hnd Hfl Hck Hloc].
   destruct Ht as [pre [sl [body [tl [Ess [Esl [Etl [Hst Hhead]]]]]]]].
   assert (Hdrop : drop_tail (segs s) j = pre ++ [mkSeg (sfirst sl) (body ++ firstn (length tl - j) tl)]).
   { rewrite Ess, drop_tail_snoc, Esl, firstn_app_states by lia. reflexivity. }
@@ -530,5 +548,6 @@ Proof.
   - unfold hd_first in *. rewrite Hdrop.
     assert (HH : sfirst (hd (mkSeg 0 []) (pre ++ [sl])) <= newest (segs s)) by (rewrite <- Ess; exact Hf).
     destruct pre; simpl in *; exact HH.
+  - apply local_drop_tail. exact Hloc.
 Qed.
 
